@@ -506,6 +506,11 @@ class Infer:
                 self.expr(c)
         return UNK
 
+    def e_NamedExpr(self, e):
+        t = self.expr(e.value)
+        self.bind(e.target, t)             # (name := value) binds like an assignment and has the value's type
+        return t
+
     def e_Constant(self, e):
         if isinstance(e.value, bool):
             return BOOL
